@@ -16,6 +16,9 @@ use std::{
 mod arena;
 #[cfg(test)]
 mod tests;
+#[cfg(feature = "verif-hooks")]
+#[doc(hidden)]
+pub mod verif_hooks;
 
 use self::arena::ARENA;
 use crate::{CallSiteData, MetadataId, RawSpanId, TracedValue, TracedValues, TracingEvent};
